@@ -229,6 +229,14 @@ class _TagMeta(type):
 
     def __call__(cls, keyword, attributes, **kwargs):
         if ":" in keyword:
+            if keyword.count(":") > 1:
+                raise exceptions.CompileException(
+                    "No such tag: '%s'" % keyword,
+                    source=kwargs["source"],
+                    lineno=kwargs["lineno"],
+                    pos=kwargs["pos"],
+                    filename=kwargs["filename"],
+                )
             ns, defname = keyword.split(":")
             return type.__call__(
                 CallNamespaceTag, ns, defname, attributes, **kwargs
